@@ -16,6 +16,7 @@ BASES = {
     "date": ({"type": "string", "format": "date"}, "2020-01-31", "2001-02-03"), "datetime": ({"type": "string", "format": "date-time"}, "2020-01-31T10:20:30", None),
     "uuid": ({"type": "string", "format": "uuid"}, "12345678-1234-5678-1234-567812345678", None),
     "enumstr": ({"type": "string", "enum": ["a", "b"]}, "a", "b"), "enumint": ({"type": "integer", "enum": [1, 2]}, 1, 2),
+    "enumstrdup": ({"type": "string", "enum": ["low", "high", "high"]}, "low", "high"),      # a repeated member is not a null member
     # present-but-FALSY values must stay 'present': 0, "", False, {} and [] are not 'absent'
     "enumint0": ({"type": "integer", "enum": [0, 1]}, 0, None), "enumstr0": ({"type": "string", "enum": ["", "x"]}, "", None),
     "int0": ({"type": "integer"}, 0, None), "str0": ({"type": "string"}, "", None), "bool0": ({"type": "boolean"}, False, None),
@@ -59,7 +60,7 @@ def with_notation(base, notation, kind):
 
 def docs():
     out = []
-    for notation in NOTATIONS:
+    for notation, dup in [(n, False) for n in NOTATIONS] + [(n, True) for n in ("plain", "enumnull", "anyof")]:
         version = "3.0.3" if notation == "n30" else "3.1.0"
         S = {"Sub": obj({"n": {"type": "integer"}}, required=["n"]), "Opt": obj({"w": {"type": "string"}})}
         expect = {}
@@ -75,37 +76,40 @@ def docs():
                 expect[cn] = {"kind": "allof", "nullable": False, "sample": None, "default": None, "mandatory": ["when", "count"], "optional": ["note"]}
         params_paths = {}
         for kind, (base, sample, dflt) in BASES.items():
+            if kind == "enumstrdup" and not dup:
+                continue          # a class-based enum with a repeated member aborts generation (known finding of C06); Literal enums accept it
             wn = with_notation(base, notation, kind)
             if wn is None:
                 continue
             sch, nullable = wn
             props = {"r": sch, "o": sch}
             if dflt is not None:
-                props["rd"] = dict(sch, default=dflt) if "anyOf" not in sch and "oneOf" not in sch and "allOf" not in sch else sch
-                props["od"] = props["rd"]
+                # the required property WITH a default is declared first: declaration order must not decide which constructor arguments are mandatory
+                rd = dict(sch, default=dflt) if "anyOf" not in sch and "oneOf" not in sch and "allOf" not in sch else sch
+                props = {"rd": rd, "r": sch, "o": sch, "od": rd}
             cname = f"C_{kind}"
             S[cname] = obj(props, required=["r", "rd"] if "rd" in props else ["r"])
             expect[cname] = {"kind": kind, "nullable": nullable, "sample": sample, "default": dflt if ("rd" in props and props["rd"] is not sch) else None}
-            if kind in ("str", "int", "float", "bool", "enumstr", "enumint", "uuid", "date") and notation in ("plain", "n31", "anyof", "n30"):
+            if kind in ("str", "int", "float", "bool", "enumstr", "enumint", "enumstrdup", "uuid", "date") and notation in ("plain", "n31", "anyof", "n30"):
                 for loc in ("query", "header", "cookie"):
                     if loc == "header" and kind in ("date",):
                         continue
                     params_paths[f"/p/{loc}/{kind}"] = {"get": OPS.op(f"p_{loc}_{kind}", [OPS.P("rq", loc, sch, True), OPS.P("op", loc, sch, False)])}
         d = {"openapi": version, "info": {"title": "t", "version": "1"}, "paths": params_paths, "components": {"schemas": S}}
-        out.append((notation, d, expect))
+        out.append((notation + "+literal", d, expect, {"literal_enums": True}) if dup else (notation, d, expect, None))
     return out
 
 
 def work(args):
-    label, doc, expect, seed = args
-    out = {"label": label, "doc": doc, "error": None, "classes": [], "eps": []}
+    label, doc, expect, cfg, seed = args
+    out = {"label": label, "doc": doc, "cfg": cfg, "error": None, "classes": [], "eps": []}
     try:
-        with impl.Gen(doc) as g:
+        with impl.Gen(doc, cfg=cfg) as g:
             if g.exc is not None:
                 out["error"] = "generate raised " + repr(g.exc)
                 return out
             out["diag"] = [d[1] + ": " + str(d[2])[:200] for d in g.diag()]
-            data, config = impl.parse_doc(doc)
+            data, config = impl.parse_doc(doc, cfg=cfg)
             ab = absprop.Abs(data)
             out["ctable"] = ab.ctable()
             models = {str(m.class_info.name): m for m in ab.models}
@@ -163,7 +167,7 @@ def work(args):
                 kind = ep.name.rsplit("_", 1)[1]
                 sample = BASES[kind][1]
                 val = {"str": ("j", sample), "int": ("j", sample), "float": ("j", sample), "bool": ("j", sample), "uuid": ("uuid", sample), "date": ("date", sample),
-                       "enumstr": None, "enumint": None}[kind]
+                       "enumstr": None, "enumint": None, "enumstrdup": None}[kind]
                 if val is None:
                     cls = [p for p in ep.query_parameters + ep.header_parameters + ep.cookie_parameters][0]
                     kk = ab.kind(cls)
@@ -228,7 +232,7 @@ def admits_none_str(ts: str) -> bool:
 
 def known_class(label, rec):
     """the only listed C10 defect: OpenAPI 3.0 `nullable: true` written on an inline enum schema is ignored"""
-    if label == "n30" and rec["expect"]["kind"].startswith("enum"):
+    if label.startswith("n30") and rec["expect"]["kind"].startswith("enum"):
         return "enum_nullable30_ignored"
     return None
 
@@ -249,14 +253,14 @@ def run(run, tier, replay=None):
                 "annotation and nullability vs the Coq model; absent/null/present instances through generated from_dict/to_dict; constructor and endpoint "
                 "signatures; requests captured with the optional argument omitted. Exhaustive over this finite grid; non-trivial = all of them.")
     run.exhaustive = True
-    jobs = [(l, d, ex, rng.randrange(1 << 30)) for l, d, ex in D]
+    jobs = [(l, d, ex, cfg, rng.randrange(1 << 30)) for l, d, ex, cfg in D]
     with cf.ProcessPoolExecutor(max_workers=8) as ex:
         results = list(ex.map(work, jobs))
     hdr = HDR
     terms, meta = [], []
     for di, r in enumerate(results):
         if r["error"]:
-            run.violation("harness-or-generator", {"label": r["label"], "error": r["error"], "doc": r["doc"]})
+            run.violation("harness-or-generator", {"label": r["label"], "error": r["error"], "doc": r["doc"], "cfg": r.get("cfg")})
             continue
         hdr += f"Definition T{di} : ctable := {r['ctable']}.\nDefinition O{di} : oracles := {r['oracles']}.\n"
         for rec in r["classes"]:
@@ -271,9 +275,9 @@ def run(run, tier, replay=None):
                 byname = {sp["name"]: sp for sp in sig.get("params", [])}
                 for n in ex["mandatory"]:
                     if n not in byname or byname[n]["has_default"]:
-                        run.violation("oracle", {"label": r["label"], "doc": r["doc"], "cls": rec["cls"], "param": byname.get(n), "note": f"property {n!r} is required by a member schema but is not a mandatory constructor argument of the composed class"})
+                        run.violation("oracle", {"label": r["label"], "doc": r["doc"], "cfg": r.get("cfg"), "cls": rec["cls"], "param": byname.get(n), "note": f"property {n!r} is required by a member schema but is not a mandatory constructor argument of the composed class"})
                 if "dec_exc" not in (rec.get("missing_required") or {"dec_exc": 1}):
-                    run.violation("oracle", {"label": r["label"], "doc": r["doc"], "cls": rec["cls"], "impl": rec.get("missing_required"), "note": "an instance without the required properties is accepted by from_dict"})
+                    run.violation("oracle", {"label": r["label"], "doc": r["doc"], "cfg": r.get("cfg"), "cls": rec["cls"], "impl": rec.get("missing_required"), "note": "an instance without the required properties is accepted by from_dict"})
                 continue
             for pname, ent in rec["props"].items():
                 run.note_case({"doc": r["label"], "cls": rec["cls"], "prop": pname, "type": ent["type_string"]}, kind="type")
@@ -290,10 +294,10 @@ def run(run, tier, replay=None):
                 has_default = " = " in ent["decl"]
                 want_default = (not ent["required"]) or (pname in ("rd", "od") and ex["default"] is not None)
                 if has_default != want_default:
-                    run.violation("oracle", {"label": r["label"], "doc": r["doc"], "cls": rec["cls"], "prop": pname, "decl": ent["decl"],
+                    run.violation("oracle", {"label": r["label"], "doc": r["doc"], "cfg": r.get("cfg"), "cls": rec["cls"], "prop": pname, "decl": ent["decl"],
                                              "note": "declaration default does not match 'mandatory <-> required without default'"})
                 if pname in ("r", "o") and admits_none_str(ent["type_string"]) != ex["nullable"]:
-                    report(run, r["label"], rec, {"label": r["label"], "doc": r["doc"], "cls": rec["cls"], "prop": pname, "type_string": ent["type_string"], "nullable_in_document": ex["nullable"],
+                    report(run, r["label"], rec, {"label": r["label"], "doc": r["doc"], "cfg": r.get("cfg"), "cls": rec["cls"], "prop": pname, "type_string": ent["type_string"], "nullable_in_document": ex["nullable"],
                                              "note": "the declared type admits None although the schema is not nullable, or vice versa"})
             for t in rec.get("trials", []):
                 run.note_case({"doc": r["label"], "cls": rec["cls"], "state": t["state"], "instance": t["inst"]}, kind="state_" + t["state"])
@@ -306,31 +310,31 @@ def run(run, tier, replay=None):
                 res = t["res"]
                 if t["state"] == "absent":
                     if "dec_exc" in res or "enc_exc" in res:
-                        run.violation("oracle", {"label": r["label"], "doc": r["doc"], "cls": rec["cls"], "instance": t["inst"], "impl": res, "note": "instance without the optional property is not accepted"})
+                        run.violation("oracle", {"label": r["label"], "doc": r["doc"], "cfg": r.get("cfg"), "cls": rec["cls"], "instance": t["inst"], "impl": res, "note": "instance without the optional property is not accepted"})
                     else:
                         f = res["obj"]["fields"]
                         o = f.get("o")
                         if o is None or o["t"] != "unset":
-                            run.violation("oracle", {"label": r["label"], "doc": r["doc"], "cls": rec["cls"], "instance": t["inst"], "impl": res, "note": "absent optional property does not read back as UNSET"})
+                            run.violation("oracle", {"label": r["label"], "doc": r["doc"], "cfg": r.get("cfg"), "cls": rec["cls"], "instance": t["inst"], "impl": res, "note": "absent optional property does not read back as UNSET"})
                         if "o" in (res.get("out") or {}):
-                            run.violation("oracle", {"label": r["label"], "doc": r["doc"], "cls": rec["cls"], "instance": t["inst"], "impl": res, "note": "UNSET property was transmitted"})
+                            run.violation("oracle", {"label": r["label"], "doc": r["doc"], "cfg": r.get("cfg"), "cls": rec["cls"], "instance": t["inst"], "impl": res, "note": "UNSET property was transmitted"})
                 elif t["state"] == "present":
                     if "dec_exc" not in res and "enc_exc" not in res:
                         o = res["obj"]["fields"].get("o")
                         if o is not None and o["t"] == "unset":
-                            run.violation("oracle", {"label": r["label"], "doc": r["doc"], "cls": rec["cls"], "instance": t["inst"], "impl": res, "note": "a PRESENT optional value (possibly falsy: 0, '', False, {}, []) reads back as UNSET"})
+                            run.violation("oracle", {"label": r["label"], "doc": r["doc"], "cfg": r.get("cfg"), "cls": rec["cls"], "instance": t["inst"], "impl": res, "note": "a PRESENT optional value (possibly falsy: 0, '', False, {}, []) reads back as UNSET"})
                         if "o" not in (res.get("out") or {}):
-                            run.violation("oracle", {"label": r["label"], "doc": r["doc"], "cls": rec["cls"], "instance": t["inst"], "impl": res, "note": "a PRESENT optional value was not transmitted"})
+                            run.violation("oracle", {"label": r["label"], "doc": r["doc"], "cfg": r.get("cfg"), "cls": rec["cls"], "instance": t["inst"], "impl": res, "note": "a PRESENT optional value was not transmitted"})
                 elif t["state"] == "null" and ex["nullable"]:
                     if "dec_exc" in res or "enc_exc" in res:
-                        report(run, r["label"], rec, {"label": r["label"], "doc": r["doc"], "cls": rec["cls"], "instance": t["inst"], "impl": res, "note": "null rejected although the schema is nullable"})
+                        report(run, r["label"], rec, {"label": r["label"], "doc": r["doc"], "cfg": r.get("cfg"), "cls": rec["cls"], "instance": t["inst"], "impl": res, "note": "null rejected although the schema is nullable"})
                     else:
                         f = res["obj"]["fields"]
                         for pn in ("r", "o"):
                             if not (f.get(pn, {}).get("t") == "j" and f[pn]["v"] is None):
-                                run.violation("oracle", {"label": r["label"], "doc": r["doc"], "cls": rec["cls"], "prop": pn, "impl": res, "note": "JSON null is not decoded to None"})
+                                run.violation("oracle", {"label": r["label"], "doc": r["doc"], "cfg": r.get("cfg"), "cls": rec["cls"], "prop": pn, "impl": res, "note": "JSON null is not decoded to None"})
                             if (res.get("out") or {}).get(pn, "missing") is not None:
-                                run.violation("oracle", {"label": r["label"], "doc": r["doc"], "cls": rec["cls"], "prop": pn, "impl": res, "note": "None is not encoded as null"})
+                                run.violation("oracle", {"label": r["label"], "doc": r["doc"], "cfg": r.get("cfg"), "cls": rec["cls"], "prop": pn, "impl": res, "note": "None is not encoded as null"})
             sig = rec.get("signature") or {}
             if "params" in sig:
                 for sp in sig["params"]:
@@ -339,17 +343,17 @@ def run(run, tier, replay=None):
                         if sp["name"] == "rd" and ex["default"] is None:
                             want = False
                         if sp["has_default"] != want:
-                            run.violation("oracle", {"label": r["label"], "doc": r["doc"], "cls": rec["cls"], "param": sp, "note": "constructor: mandatory <-> required without default violated"})
+                            run.violation("oracle", {"label": r["label"], "doc": r["doc"], "cfg": r.get("cfg"), "cls": rec["cls"], "param": sp, "note": "constructor: mandatory <-> required without default violated"})
                         if sp["name"] == "o" and sp["has_default"] and (sp["default"] or {}).get("t") != "unset":
-                            run.violation("oracle", {"label": r["label"], "doc": r["doc"], "cls": rec["cls"], "param": sp, "note": "optional property without default does not default to UNSET"})
+                            run.violation("oracle", {"label": r["label"], "doc": r["doc"], "cfg": r.get("cfg"), "cls": rec["cls"], "param": sp, "note": "optional property without default does not default to UNSET"})
         for erec in r["eps"]:
             run.note_case({"doc": r["label"], "op": erec["op"]}, kind="parameter")
             sig = erec.get("signature") or {}
             for sp in sig.get("params", []):
                 if sp["name"] == "rq" and sp["has_default"]:
-                    run.violation("oracle", {"label": r["label"], "doc": r["doc"], "op": erec["op"], "param": sp, "note": "required parameter without default is not a mandatory argument"})
+                    run.violation("oracle", {"label": r["label"], "doc": r["doc"], "cfg": r.get("cfg"), "op": erec["op"], "param": sp, "note": "required parameter without default is not a mandatory argument"})
                 if sp["name"] == "op" and ((not sp["has_default"]) or (sp["default"] or {}).get("t") != "unset"):
-                    run.violation("oracle", {"label": r["label"], "doc": r["doc"], "op": erec["op"], "param": sp, "note": "optional parameter does not default to UNSET"})
+                    run.violation("oracle", {"label": r["label"], "doc": r["doc"], "cfg": r.get("cfg"), "op": erec["op"], "param": sp, "note": "optional parameter does not default to UNSET"})
             loc = erec["params"][0]["loc"] if erec["params"] else None
             for which in ("call_omit", "call_both"):
                 call = erec.get(which)
@@ -360,18 +364,18 @@ def run(run, tier, replay=None):
                         # httpx refuses the raw non-string value: C03's findings cookie_non_string / header_non_string / header_none; nothing is observable here
                         run.extra["parameter_calls_unobservable"] = run.extra.get("parameter_calls_unobservable", 0) + 1
                         continue
-                    run.violation("oracle", {"label": r["label"], "doc": r["doc"], "op": erec["op"], "impl": call, "note": "calling with the optional argument %s raised" % ("omitted" if which == "call_omit" else "given")})
+                    run.violation("oracle", {"label": r["label"], "doc": r["doc"], "cfg": r.get("cfg"), "op": erec["op"], "impl": call, "note": "calling with the optional argument %s raised" % ("omitted" if which == "call_omit" else "given")})
                     continue
                 req = (call.get("requests") or [{}])[0]
                 names = {"query": [k for k, _ in req.get("query", [])], "header": [k.lower() for k, _ in req.get("headers", [])],
                          "cookie": [c.split("=")[0].strip() for k, v in req.get("headers", []) if k.lower() == "cookie" for c in v.split(";")]}[loc]
                 present = ("op" in names)
                 if which == "call_omit" and present:
-                    run.violation("oracle", {"label": r["label"], "doc": r["doc"], "op": erec["op"], "request": req, "note": "omitted optional parameter was transmitted"})
+                    run.violation("oracle", {"label": r["label"], "doc": r["doc"], "cfg": r.get("cfg"), "op": erec["op"], "request": req, "note": "omitted optional parameter was transmitted"})
                 if which == "call_both" and not present:
-                    run.violation("oracle", {"label": r["label"], "doc": r["doc"], "op": erec["op"], "request": req, "note": "given optional parameter was not transmitted"})
+                    run.violation("oracle", {"label": r["label"], "doc": r["doc"], "cfg": r.get("cfg"), "op": erec["op"], "request": req, "note": "given optional parameter was not transmitted"})
                 if "rq" not in names:
-                    run.violation("oracle", {"label": r["label"], "doc": r["doc"], "op": erec["op"], "request": req, "note": "required parameter was not transmitted"})
+                    run.violation("oracle", {"label": r["label"], "doc": r["doc"], "cfg": r.get("cfg"), "op": erec["op"], "request": req, "note": "required parameter was not transmitted"})
     bad = run_cases(hdr, terms, shard=300)
     run.corr = {"cases": len(terms), "mismatches": len([i for i in bad if meta[i][0] != "nullable"]), "what": "get_type_string == Types.type_of (as sets); document nullability == Types.nullable; generated from_dict/to_dict on absent/present/null instances == Codec.dec/enc"}
     for i in bad[:8]:
